@@ -45,12 +45,14 @@ static void cmp_all(const std::string& rel, const std::string& cell, const Res& 
       cmp(rel, "uncertainty0", cell, x.u0, y.u0, s1 + sF + sB, tolF, c); cmp(rel, "uncertainty1", cell, x.u1, y.u1, sF + sB, tolF, c); cmp(rel, "uncertainty2", cell, x.u2, y.u2, 0.05 * (s1 + sF + sB), tolF, c);
    }
    if (with_yukawas) for (int k = 0; k < 12; ++k) {
-      const double sc = std::max(x.y[k].cwiseAbs().maxCoeff(), y.y[k].cwiseAbs().maxCoeff());
+      // scale: the largest entry among the four coupling matrices (h, H, A, H+) of the same fermion type - y^h_f = (s_ba + c_ba zeta_f) m_f/v can cancel
+      // to 1e-6 of its terms (alpha ~ 0), and its rounding error is that of the terms
+      double sc = 0; for (int q = 4 * (k / 4); q < 4 * (k / 4) + 4; ++q) sc = std::max({sc, x.y[q].cwiseAbs().maxCoeff(), y.y[q].cwiseAbs().maxCoeff()});
       double e = (x.y[k] - y.y[k]).cwiseAbs().maxCoeff() / std::max(sc, 1e-300);
       if (!(x.y[k].allFinite() && y.y[k].allFinite())) e = std::numeric_limits<double>::quiet_NaN();
       J w = c; w.str("relation", rel).str("quantity", YN[k]).d("err", e);
       out->cell(rel + "|" + YN[k] + "|" + cell, e / tol, &w);
-      if (!(e <= tol)) out->fail("C09:" + rel + ":yukawa-getter", rel + ": " + YN[k] + " differs by " + vh::num(e) + " of its largest entry", w);
+      if (!(e <= tol)) out->fail("C09:" + rel + ":yukawa-getter", rel + ": " + YN[k] + " differs by " + vh::num(e) + " of the largest entry of its fermion type", w);
    }
 }
 static bool bit_identical(const Res& x, const Res& y) {
